@@ -44,7 +44,7 @@ fn ranges(mut v: Vec<u64>) -> String {
 }
 
 /// one session of the tombstone log: open (prints what was recovered), append, drop
-fn tomb_session(rt: &tokio::runtime::Runtime, d: &mut TombDev, n: usize, each: bool) -> String {
+fn tomb_session(rt: &tokio::runtime::Runtime, d: &mut TombDev, n: usize, each: bool, perm: usize) -> String {
     rt.block_on(async {
         let device = FsDeviceBuilder::new(&d.dir)
             .with_capacity(d.pages * PAGE)
@@ -76,6 +76,16 @@ fn tomb_session(rt: &tokio::runtime::Runtime, d: &mut TombDev, n: usize, each: b
             })
             .collect();
         d.next_seq += n as u64;
+        // the order in which the batch reaches the log: in sequence order (one flusher), reversed, or the even sequences
+        // before the odd ones (two flushers)
+        let ts: Vec<Tombstone> = match perm {
+            1 => ts.into_iter().rev().collect(),
+            2 => {
+                let (a, b): (Vec<Tombstone>, Vec<Tombstone>) = ts.into_iter().partition(|t| t.sequence % 2 == 0);
+                a.into_iter().chain(b).collect()
+            }
+            _ => ts,
+        };
         if each {
             for t in ts.iter() {
                 log.append(std::iter::once(t)).await.unwrap();
@@ -386,7 +396,8 @@ fn main() {
                 "tombsession" => {
                     let n: usize = kv["n"].parse().unwrap();
                     let each = kv.get("each").map(|s| s == "1").unwrap_or(false);
-                    tomb_session(&rt, tomb.as_mut().expect("tombnew first"), n, each)
+                    let perm: usize = kv.get("perm").map(|s| s.parse().unwrap()).unwrap_or(0);
+                    tomb_session(&rt, tomb.as_mut().expect("tombnew first"), n, each, perm)
                 }
                 "splitnew" => {
                     let b: usize = kv["B"].parse().unwrap();
